@@ -102,7 +102,46 @@ func checkC13() *checkDef {
 }
 
 func allChecks() []*checkDef {
-	return []*checkDef{checkC01(), checkC12(), checkC13(), checkC14(), checkC15(), checkC19()}
+	return []*checkDef{checkC01(), checkC03(), checkC04(), checkC12(), checkC13(), checkC14(), checkC15(), checkC19()}
+}
+
+func freshRuns(tier string) []run {
+	return []run{
+		{Pkg: "./proxy", Scenario: "proxy/fresh", Params: map[string]any{"backend": "memory"}},
+		{Pkg: "./proxy", Scenario: "proxy/fresh", Params: map[string]any{"backend": "file"}},
+	}
+}
+
+var seqAssumptions = []string{
+	"the origin, the client and the clock are in-process and deterministic (DESIGN.md 2.2); requests are produced by http.ReadRequest from wire bytes and handed to the real Proxy.ServeHTTP",
+	"verdicts hold for the enumerated alphabet and depth only (A2)",
+	"slog output is discarded (A4)",
+}
+
+func checkC03() *checkDef {
+	return &checkDef{
+		ID: "C03", Title: "A stored response is reused only while fresh; expiry forces an origin contact", Level: "model_checking",
+		LevelText: "Explicit-state exploration of request histories on the real proxy: every origin header class (Cache-Control directives in several letter cases, orders, one or two field lines, malformed/overflowing max-age; Expires absent/future/past/'0'/garbage/RFC 850) x the four ignore/force policies x two default lifetimes x nine gap patterns (gaps of 1 s, lifetime-1 s, lifetime+1 s relative to the reference lifetime) of three requests with the origin's version bumped between them; every exchange is judged against the reference relation B1: origin contacted iff required, HIT label iff no contact, Age and ttl within one second of the reference.",
+		LevelNote: "Trusted: the in-process origin and virtual clock; the reference relation B1 (written from the property text; the instant age==lifetime, ignored max-age=0 and malformed max-age are left free).",
+		Technique: "explicit-state enumeration of request histories x header classes x policies on the implementation against a reference freshness model",
+		DesignRef: "DESIGN.md section 4 C03, appendix B1",
+		Rule:        "all (policy, default, header class, gap pattern) tuples, three requests each; distinct by tuple; non-trivial = distinct contact/hit pattern with its must/must-not classification",
+		Assumptions: seqAssumptions,
+		Runs:        freshRuns,
+	}
+}
+
+func checkC04() *checkDef {
+	return &checkDef{
+		ID: "C04", Title: "Exactly the storable responses are stored", Level: "model_checking",
+		LevelText: "Same enumeration as C03 (header classes x policies x gap patterns) plus methods x status codes: a response is served without origin contact only if it was a 200 answer to a GET and not marked no-store/no-cache/private/max-age=0/already expired (unless directives are ignored); conversely a 200 GET with positive max-age, or with no Cache-Control and no past Expires, is reused while fresh.",
+		LevelNote: "Trusted: in-process origin, virtual clock, reference relation B1 (must / must-not / free zones).",
+		Technique: "explicit-state enumeration of request histories x header classes x methods x statuses on the implementation against a reference storability model",
+		DesignRef: "DESIGN.md section 4 C04, appendix B1",
+		Rule:        "all (policy, header class, gap pattern) tuples and all (method, status) pairs; distinct by tuple; non-trivial = distinct contact pattern",
+		Assumptions: seqAssumptions,
+		Runs:        freshRuns,
+	}
 }
 
 type evSched struct {
